@@ -39,6 +39,7 @@ func (ex *Exec) enterBlock(st *State) bool {
 	}
 	li := loopsOf(fr.fn)[fr.block]
 	if li == nil {
+		ex.maybePark(st, fr)
 		return true
 	}
 	spec := ex.loopSpecFor(st, fr, li)
@@ -47,6 +48,7 @@ func (ex *Exec) enterBlock(st *State) bool {
 		if fr.visits[fr.block] > ex.MaxUnroll {
 			ex.unsupported("loop %d of %s has no invariant and does not unroll within %d iterations", li.ordinal, ex.FuncKey(fr.fn), ex.MaxUnroll)
 		}
+		ex.maybePark(st, fr)
 		return true
 	}
 	// evaluate head phis along the incoming edge
@@ -88,6 +90,23 @@ func (ex *Exec) enterBlock(st *State) bool {
 		}
 	}
 	return true
+}
+
+// maybePark: at a join block the state is parked so that it can be merged with the
+// other paths reaching the same point.
+func (ex *Exec) maybePark(st *State, fr *Frame) {
+	if !ex.shouldPark(st, fr) {
+		return
+	}
+	ex.evalHeadPhis(st, fr)
+	for fr.idx < len(fr.block.Instrs) {
+		if _, ok := fr.block.Instrs[fr.idx].(*ssa.Phi); ok {
+			fr.idx++
+		} else {
+			break
+		}
+	}
+	panic(parkRequest{})
 }
 
 func (ex *Exec) evalHeadPhis(st *State, fr *Frame) {
@@ -278,6 +297,17 @@ func (ex *Exec) deliver(st *State, caller *Frame, res []Value) {
 	caller.idx++
 }
 
+// libPanic: a library call that panics on this path: the obligation says the path is
+// unreachable; the path ends here.
+func (ex *Exec) libPanic(st *State, instr ssa.Instruction, name, detail string) {
+	pos := token.NoPos
+	if instr != nil {
+		pos = instr.Pos()
+	}
+	ex.oblige(st, "panic", name, False, pos, detail)
+	panic(pathEnd{detail})
+}
+
 func (ex *Exec) doPanic(st *State, fr *Frame, in *ssa.Panic) bool {
 	// an explicit panic: allowed only if the contract of the function under verification says so
 	if ex.cur.contract != nil && ex.cur.contract.MayPanic && (len(st.frames) == 1) {
@@ -439,6 +469,9 @@ func (ex *Exec) strSub(st *State, s, lo, hi *Term) *Term {
 	}
 	r := ex.fresh("substr", SStr)
 	st.assume(Eq(App("slen", SInt, r), Sub(hi, lo)))
+	if n, ok := Sub(hi, lo).Int64(); ok && ex.cur != nil {
+		ex.cur.strLens[r.Key()] = n
+	}
 	// concrete length: pointwise facts, else quantified
 	if n, ok := Sub(hi, lo).Int64(); ok && n <= 64 {
 		for i := int64(0); i < n; i++ {
@@ -680,7 +713,7 @@ func (ex *Exec) callFunction(st *State, fr *Frame, instr ssa.Instruction, callee
 			if ct.Trusted {
 				ex.cur.trustedUsed[key] = true
 			}
-			res := ex.callWithContract(st, instr, callee, ct, args)
+			res := ex.callWithContractEnv(st, instr, callee, ct, args, env)
 			return finish(res)
 		}
 	}
